@@ -102,3 +102,17 @@ Proof.
     + split; [|discriminate]. intros _. destruct Hr as [->|(p & -> & Hp1 & Hp2)]; cbn in E; apply Z.ltb_lt in E; lia.
     + apply IH. right. exists now. unfold remaining_at. repeat split; lia.
 Qed.
+
+(** a read that returns AFTER the deadline (a slow log file, descheduling: the environment law does not hold for it): its data is
+    still searched - a hit is a hit -, and when it does not match, the call reports TIMEOUT at the head of the next iteration
+    without reading again, whatever the transport would deliver next.  (This is how the scripted transports of C01-C04 present a
+    late read to the Expecter model: the data, then the expiry of the time.) *)
+Lemma late_miss_times_out over d now rem dur r : expired rem = false -> d < now + dur + over ->
+  loop over (Some d) now rem (RMiss dur :: r) = (TimedOut, now + dur + over).
+Proof.
+  intros He Hl. cbn [loop]. rewrite He. cbn [dur_of remaining_at].
+  destruct r as [|e r]; cbn [loop]; unfold expired; replace (d - (now + dur + over) <? 0) with true by (symmetry; apply Z.ltb_lt; lia); reflexivity.
+Qed.
+Lemma late_hit_is_a_hit over d now rem dur r : expired rem = false ->
+  loop over (Some d) now rem (RHit dur :: r) = (Matched, now + dur + over).
+Proof. intros He. cbn [loop]. rewrite He. reflexivity. Qed.
